@@ -17,6 +17,7 @@ import (
 	"github.com/primevprotocol/mev-commit/pkg/topology"
 	"google.golang.org/grpc/codes"
 	"google.golang.org/grpc/status"
+	"google.golang.org/protobuf/proto"
 )
 
 const (
@@ -151,6 +152,10 @@ func (p *Preconfirmation) SendBid(
 			providerAddress, err := p.signer.VerifyPreConfirmation(preConfirmation)
 			if err != nil {
 				logger.Error("verifying provider signature", "error", err)
+				return
+			}
+			if !proto.Equal(preConfirmation.Bid, signedBid) {
+				logger.Error("preconfirmation is not for the bid sent", "preConfirmation", preConfirmation)
 				return
 			}
 			preConfirmation.ProviderAddress = make([]byte, len(providerAddress))
